@@ -23,7 +23,14 @@ def run_property(pid, tier, root, seed, selftest=True, out_dir=None, evidence_di
     try:
         ctx = Ctx(root)
         chk = Check(ctx, pid, tier)
-        mod.run(chk)
+        try:
+            mod.run(chk)
+        except AnalysisError as e:
+            # a positively identified violation stands even if a later rule lost its anchor
+            if not any(o.status == "VIOLATED" for o in chk.obs):
+                raise
+            chk.notes.append("analysis incomplete after the reported violation(s): %s" % e)
+            print("NOTE property=%s analysis incomplete: %s" % (pid, e))
         for a in getattr(mod, "ASSUMPTIONS", []):
             chk.assume(a)
         extra = {}
